@@ -191,6 +191,8 @@ def _replay_path_job(job):
     r = replay_states(root, [nodes[x] for x in path[1:]], _G["seed"], "%s%d" % (_G["slice"], idx), _G["files"])
     r["idx"] = idx
     r["final"] = None
+    if not r["viol"] and not r["drift"]:
+        r["evs"] = None
     return r
 
 
@@ -358,17 +360,20 @@ def graph_slice(ctx, name, consts, flags, frac, rnd, procs):
     docutil.WANT = ("disk", "ideal", "depth", "dev", "last", "writers")
     nodes, edges, init = docutil.load_graph(dump + ".dot", procs=procs)
     os.remove(dump + ".dot")
-    ops = {}
+    ops, excs = {}, {}
     for u, v in edges:
         o = nodes.op(v)
         ops[o] = ops.get(o, 0) + 1
+        x = nodes.exc(v)
+        if x:
+            excs[x] = excs.get(x, 0) + 1
     r.actions = {o: (n, n) for o, n in ops.items()}      # action coverage read off TLC's exported graph
     ctx.add_tlc("slice %s: state graph (level <= %s)" % (name, consts["MaxLevel"]), r)
     paths, nedges = docutil.edge_cover(nodes, edges, init)
     files = sorted(nodes[init]["disk"])
     _G.update(nodes=nodes, root=ctx.mkdtemp("rp_" + name), seed=ctx.seed, slice=name, files=files)
     reps = core.pmap(_replay_path_job, list(enumerate(paths)), procs=procs)
-    st = {"slice": name, "states": len(nodes), "edges": nedges, "paths": len(paths), "steps": 0, "known": 0, "viol": 0, "drift": 0, "ops": ops}
+    st = {"slice": name, "states": len(nodes), "edges": nedges, "paths": len(paths), "steps": 0, "known": 0, "viol": 0, "drift": 0, "ops": ops, "failing_edges": excs}
     for rep in reps:
         st["steps"] += rep["steps"]
         path = paths[rep["idx"]]
@@ -504,12 +509,15 @@ def run(ctx):
             sigs = [s for s, _ in rep["viol"]]
             summary.setdefault("counterexamples", []).append({"deviation": d, "requirement": inv, "steps": len(states), "reproduced": SIG[d] in sigs,
                                                                "operations": _short(rep["evs"])})
-            if SIG[d] not in sigs:
-                raise core.MachineryError("TLC's counterexample to %s under deviation %s is not reproduced by the real code (%s / drift %s): "
-                                          "the specification is wrong" % (inv, d, rep["viol"], rep["drift"]))
+            if SIG[d] not in sigs and not rep["viol"]:
+                if rep["drift"]:
+                    ctx.spec_drift("counterexample to %s under %s: %s" % (inv, d, rep["drift"]))
+                    continue
+                raise core.MachineryError("TLC's counterexample to %s under deviation %s is not reproduced by the real code: the specification "
+                                          "is wrong (%s)" % (inv, d, _short(rep["evs"])))
             for sig, what in rep["viol"]:
-                _viol(ctx, sig, "TLC counterexample to %s reproduced on the real code: %s" % (inv, what), {"ops": rep["evs"], "source": "counterexample"})
-            ctx.sample({"tlc_counterexample_to": inv, "deviation": d, "operations": _short(rep["evs"]), "reproduced_on_real_code": True})
+                _viol(ctx, sig, "replay of TLC's counterexample to %s on the real code: %s" % (inv, what), {"ops": rep["evs"], "source": "counterexample"})
+            ctx.sample({"tlc_counterexample_to": inv, "deviation": d, "operations": _short(rep["evs"]), "reproduced_on_real_code": SIG[d] in sigs})
 
     # 3. spec -> code: edge cover of every slice
     vts = []
@@ -524,6 +532,11 @@ def run(ctx):
         seen_ops |= {o for o, n in st["ops"].items() if n}
     if need - seen_ops:
         raise core.MachineryError("vacuous: operations never taken in any slice: %s" % sorted(need - seen_ops))
+    seen_exc = set()
+    for st in summary["slices"]:
+        seen_exc |= set(st["failing_edges"])
+    if set(docutil.KNOWN_EXC) - seen_exc:
+        raise core.MachineryError("vacuous: failing branches never taken in any slice: %s" % sorted(set(docutil.KNOWN_EXC) - seen_exc))
 
     # 4. code -> spec: variants of the TLC behaviours, the repository's test scripts, random long executions
     res = validate_traces(ctx, "variants", vts, flags, procs)
@@ -551,7 +564,7 @@ def run(ctx):
 
     # 5. thorough: long simulated behaviours of the larger model, replayed step by step
     if not ctx.quick:
-        summary["simulate"] = simulate(ctx, flags, procs, num=400)
+        summary["simulate"] = simulate(ctx, flags, procs, num=12)   # behaviours per TLC worker
 
     # 6. binding self-test: a corrupted expectation and a dropped step must be noticed
     ctx.cov["binding_selftest"] = selftest(ctx, flags)
